@@ -105,7 +105,12 @@ Repeats == {[mt |-> "anyof", conds |-> <<c1, c2, c1>>, acts |-> <<a1, a2, a1>>] 
               c2 \in {c \in Conds : c.k = "false"},
               a1 \in {a \in Acts : a.k \in {"addflag", "keep"} /\ a.lst = <<>>},
               a2 \in {a \in Acts : a.k = "discard"}}
-Init == def \in Singles \cup (IF Pairs THEN Doubles ELSE {}) \cup Repeats
+\* a negated condition followed by a plain one (and a plain one in front): negation belongs to its own condition only
+\* (seed C19j: a flag left set by `notexists` turned the following `:contains` into `:notcontains` at read-back)
+NegLead == {[mt |-> m, conds |-> cs, acts |-> <<a>>] :
+              m \in {"anyof"}, a \in {x \in Acts : x.k = "keep"},
+              cs \in UNION {{<<c1, c2>>, <<c2, c1, c2>>} : c1 \in {c \in Conds : c.neg}, c2 \in {c \in Conds : ~c.neg /\ c.k \notin {"true", "false"}}}}
+Init == def \in Singles \cup (IF Pairs THEN Doubles ELSE {}) \cup Repeats \cup NegLead
 Next == UNCHANGED def
 Spec == Init /\ [][Next]_def
 
